@@ -25,6 +25,9 @@ sys.dont_write_bytecode = True
 sys.path.insert(0, os.path.join(REPO, 'src'))
 
 PROPS = ['C%02d' % i for i in range(1, 21)]
+EVIDENCE = os.environ.get('VERIF_EVIDENCE_DIR') or os.path.join(VERIF, 'evidence')
+REPLAYS = os.environ.get('VERIF_REPLAY_DIR') or os.path.join(VERIF, 'replays')
+REPLAYS_REL = os.environ.get('VERIF_REPLAY_DIR') or 'replays'
 
 
 def load_known():
@@ -193,17 +196,17 @@ def run_property(pid, tier, seed, jobs=16, out=sys.stdout):
 
     # ---- output ------------------------------------------------------------
     rc = 0
-    os.makedirs(os.path.join(VERIF, 'replays', pid), exist_ok=True)
+    os.makedirs(os.path.join(REPLAYS, pid), exist_ok=True)
     nviol = 0
     for d, o, rr in violations:
-        rp = os.path.join('replays', pid, safe(o['name']) + '.json')
+        rp = os.path.join(REPLAYS_REL, pid, safe(o['name']) + '.json')
         idx = [i for i, r in enumerate(results) if r is d][0]
         rep = rr.get('replay_result') if rr else None
         payload = dict(property=pid, kind='proof', obligation=o['name'], contract_module=modname, contract_index=idx,
                        formula=o['formula'], solver=o['solver'], solver_output=(rr or {}).get('smt_model'),
                        inputs=(rr or {}).get('model'), function=d['function'], replay_result=rep,
                        repo=REPO)
-        with open(os.path.join(VERIF, rp), 'w') as f:
+        with open(rp if os.path.isabs(rp) else os.path.join(VERIF, rp), 'w') as f:
             json.dump(payload, f, indent=1, default=str)
         if rep is None or (isinstance(rep, (list, tuple)) and rep[0] == 'error'):
             print('VIOLATION property=%s replay=%s no-failing-input-found' % (pid, rp), file=out)
@@ -219,8 +222,8 @@ def run_property(pid, tier, seed, jobs=16, out=sys.stdout):
             spurious.append(o['name'])
             print('SPURIOUS obligation=%s: counter-model does not reproduce on the real code -> undecided' % o['name'], file=out)
     for v in b_viol:
-        rp = os.path.join('replays', pid, safe('bounded_' + str(v.get('case'))) + '.json')
-        with open(os.path.join(VERIF, rp), 'w') as f:
+        rp = os.path.join(REPLAYS_REL, pid, safe('bounded_' + str(v.get('case'))) + '.json')
+        with open(rp if os.path.isabs(rp) else os.path.join(VERIF, rp), 'w') as f:
             json.dump(dict(property=pid, kind='bounded', contract_module=modname, **v), f, indent=1, default=str)
         print('VIOLATION property=%s replay=%s' % (pid, rp), file=out)
         print('  bounded run-time contract failed: %s' % str(v.get('what'))[:300], file=out)
@@ -288,8 +291,8 @@ def run_property(pid, tier, seed, jobs=16, out=sys.stdout):
     ev = dict(property_id=pid, tier=tier, seed=seed, level=level, coverage=cov,
               assumptions=sorted(assumptions | set(meta.get('assumptions', []))),
               wall_s=round(time.time() - t0, 2), violations=nviol)
-    os.makedirs(os.path.join(VERIF, 'evidence'), exist_ok=True)
-    with open(os.path.join(VERIF, 'evidence', pid + '.json'), 'w') as f:
+    os.makedirs(EVIDENCE, exist_ok=True)
+    with open(os.path.join(EVIDENCE, pid + '.json'), 'w') as f:
         json.dump(ev, f, indent=1, default=str)
     print('%s tier=%s: %d obligations, %d discharged, %d lemmas, %d contracts, known-findings=%d, violations=%d, '
           'undecided=%d, bounded=%s, %.1fs -> exit %d' % (
